@@ -28,7 +28,13 @@ def main() -> int:
     try:
         if a.replay:
             payload = json.load(open(a.replay))
-            return mod.replay(chk, payload)
+            if hasattr(mod, "replay"):
+                return mod.replay(chk, payload)
+            # generic replay: regenerate the case space of the tier that found it and report whether the
+            # rejection class of the replay file (its diagnosis key) still occurs
+            chk.replay_key = payload["key"]
+            mod.run(chk)
+            return chk.finish()
         mod.run(chk)
         return chk.finish()
     except MachineryError as e:
